@@ -2,6 +2,7 @@
 import sys
 
 from sa import report, effects as E, partial as P, rules_registry as RR, rules_confine as RC
+from sa import rules_repr as RREPR
 
 UNIVERSES = RR.SAFE_LOADERS + RR.BASE_LOADERS
 
@@ -45,6 +46,8 @@ def run(ctx, repo):
         reach |= set(RC.build_universe(repo, q).summaries)
     P.r_partial_guarded(ctx, repo, ['constructor'], rule_id='R-YAML-ERROR-ONLY', skip=lambda f: f not in reach)
 
+    RREPR.r_merge_shape(ctx, repo)
+    RREPR.r_hashable_guard(ctx, repo)
 
 if __name__ == '__main__':
     sys.exit(report.main('C01', 'proof', run))
